@@ -393,6 +393,12 @@ func (s *configurationStore) Watch(ctx context.Context, ch chan<- configapi.Conf
 				delete(s.watchers, id)
 			}
 			s.mu.Unlock()
+			// the dispatcher may be in the middle of handing an event to this watcher: keep taking them,
+			// whichever way the watch ends, or the dispatcher blocks for every other watcher too
+			go func() {
+				for range eventCh {
+				}
+			}()
 		}()
 
 		if options.replay {
@@ -414,9 +420,15 @@ func (s *configurationStore) Watch(ctx context.Context, ch chan<- configapi.Conf
 						log.Error(err)
 						return
 					}
-					ch <- configapi.ConfigurationEvent{
+					select {
+					case ch <- configapi.ConfigurationEvent{
 						Type:          configapi.ConfigurationEvent_REPLAYED,
 						Configuration: *configuration,
+					}:
+					case <-ctx.Done():
+						// the watcher may have stopped reading before it cancelled
+						close(ch)
+						return
 					}
 				}
 			} else {
@@ -445,9 +457,15 @@ func (s *configurationStore) Watch(ctx context.Context, ch chan<- configapi.Conf
 						log.Error(err)
 						return
 					}
-					ch <- configapi.ConfigurationEvent{
+					select {
+					case ch <- configapi.ConfigurationEvent{
 						Type:          configapi.ConfigurationEvent_REPLAYED,
 						Configuration: *configuration,
+					}:
+					case <-ctx.Done():
+						// the watcher may have stopped reading before it cancelled
+						close(ch)
+						return
 					}
 				}
 			}
@@ -456,7 +474,13 @@ func (s *configurationStore) Watch(ctx context.Context, ch chan<- configapi.Conf
 		for {
 			select {
 			case event := <-eventCh:
-				ch <- event
+				select {
+				case ch <- event:
+				case <-ctx.Done():
+					// the watcher is gone (it may have stopped reading before its context was cancelled)
+					close(ch)
+					return
+				}
 			case <-ctx.Done():
 				close(ch)
 				go func() {
